@@ -208,6 +208,7 @@ impl anstyle_parse::Perform for WinconCapture {
                             ColorTarget::Bg => style.bg_color(Some(color.into())),
                             ColorTarget::Underline => style.underline_color(Some(color.into())),
                         };
+                        state = State::Normal;
                         break;
                     }
                     (State::Rgb, b) => match (r, g) {
@@ -224,6 +225,7 @@ impl anstyle_parse::Perform for WinconCapture {
                                 ColorTarget::Bg => style.bg_color(Some(color.into())),
                                 ColorTarget::Underline => style.underline_color(Some(color.into())),
                             };
+                            state = State::Normal;
                             break;
                         }
                     },
@@ -258,6 +260,10 @@ impl anstyle_parse::Perform for WinconCapture {
                         break;
                     }
                 }
+            }
+            if state == State::Underline {
+                // The underline style is a sub-parameter (`4:3`), it never spans parameters
+                state = State::Normal;
             }
         }
 
